@@ -96,6 +96,16 @@ def check_wsgi(P, R):
         okr = all(enclosing(r, ast.If) is not None and 'catchall' in src(enclosing(r, ast.If).test) for r in rer)
         R.ob('C03.c', f, h, okr, text='catch-all re-raises only when catchall is off', detail='' if okr else 'catch-all re-raises unconditionally', nontrivial=False)
     # ---- f: suppression
+    sup_any = [n for n in g.nodes if n.ast is not None and n.kind in ('test', 'stmt') and '_status_code' in src(n.ast) and ' in ' in src(n.ast)]
+    R.require(sup_any, 'wsgi: no body-suppression decision')
+    casts = [g.node_of_stmt(c)[0] for c in walk_shallow(f.node) if isinstance(c, ast.Call) and dotted(c.func) == 'self._cast']
+    R.require(casts, 'wsgi: _cast call not found')
+    for n in sup_any:
+        ok = g.must_pass(g.entry, n, casts)
+        R.ob('C03.f', f, n.ast, ok, text='the no-body decision reads the status after _cast() applied the final response', detail='' if ok else
+             'the status is inspected before _cast(): a returned / raised HTTPResponse or HTTPError sets the final status inside _cast, so a 204 / 304 '
+             'response keeps its body (and an error replacing a 204 loses its body while keeping its Content-Length)',
+             why='1xx, 204 and 304 responses carry no body; Content-Length equals the bytes returned', key_extra='after-cast')
     sup = [n for n in g.nodes if n.kind == 'test' and 'HEAD' in src(n.ast) and '_status_code' in src(n.ast)]
     R.require(sup, 'wsgi: no body-suppression test')
     sn = sup[0]
